@@ -439,7 +439,8 @@ pub fn check_main<P: Prop>(p: &P, tier: Tier) -> Outcome {
         if !seen_classes.insert((f.violation.class.clone(), f.violation.sig.clone())) || reported.len() >= 3 {
             continue;
         }
-        let (mc, mv, h, runs) = minimise(p, &f.case, &f.violation, &f.traces, 45.0);
+        // a wall-clock hang costs a full watchdog period per attempt: report it as found
+        let (mc, mv, h, runs) = if f.violation.class == "hang-watchdog" { (f.case.clone(), f.violation.clone(), 0, 0) } else { minimise(p, &f.case, &f.violation, &f.traces, 45.0) };
         let path = write_replay(p, seed, f.idx, &f.case, &mc, &mv, h, runs);
         println!("violation class={} sig={} run_index={} message={}", mv.class, mv.sig, f.idx, mv.message);
         println!("VIOLATION property={} replay={}", p.id(), path);
